@@ -47,6 +47,9 @@ class Violation(BaseException):
         self.ctx = ctx
 
 
+QUERY_TIMEOUT_MS = 120000  # a single SMT query that does not finish is `unknown` => inconclusive, never a verdict
+
+
 class Ctx:
     cur: "Ctx" = None
     native = False
@@ -57,6 +60,7 @@ class Ctx:
         self.prefix = list(prefix)
         self.log = []
         self.solver = z3.Solver()
+        self.solver.set("timeout", QUERY_TIMEOUT_MS)
         self.pending = []  # alternative prefixes discovered on this path
         self.nq = 0
         self.tq = 0.0
@@ -1304,6 +1308,13 @@ def compare(op, a, b):
         else:
             r = a in b
         return r if op == "in" else (not truth(r))
+    if op in ("==", "!=") and isinstance(a, (tuple, list)) and isinstance(b, (tuple, list)) and not (
+        deep_concrete(a) and deep_concrete(b)
+    ):
+        r = deep_eq(a, b)
+        if op == "!=":
+            r = (not r) if isinstance(r, bool) else mkbool(z3.Not(r.e))
+        return r
     if isinstance(a, SymSeq) or isinstance(b, SymSeq):
         if op not in ("==", "!="):
             raise Unsupported("seq ordering")
